@@ -29,7 +29,7 @@ import itertools, struct
 
 PROP = "C02"
 READY = True
-COQ_PROPS = ['Properties_C02']
+COQ_PROPS = ['Properties_C02', 'Properties_C02_payload']
 RULE = ('per case 1..6 update_theta_sketch inputs (lg_k 5..10, p in {1, 0.5, 0.01, 2^-20}, resize factor X1..X8) filled from overlapping '
         'integer ranges sized 0 (empty), 1, 2, <k, ~k, 2k..4k (estimation mode) and p<1 with few updates (zero retained but not empty), some trimmed; '
         'each input is presented to the operations in a random physical form out of 8 (update sketch, compact ordered/unordered, wrapped v3 '
@@ -387,7 +387,7 @@ def directed_reuse_case():
 FAMILIES = [dict(name='thetaset', harness='drv_thetaset.cpp', extract='Extract_thetaset.v', model='model_thetaset', gen=gen, oracle=oracle)]
 
 MANIFEST = dict(
-    level_text=('Theorems (coq/Properties_C02.v, 27, axiom-free) about the executable model coq/ThetaSetDefs.v of theta_union_base, '
+    level_text=('Theorems (coq/Properties_C02.v 34 + coq/Properties_C02_payload.v 1, axiom-free) about the executable model coq/ThetaSetDefs.v of theta_union_base, '
                 'theta_intersection_base (both with the repairs fixes/02_union_empty_theta.patch, fixes/02_intersection_empty_order.patch), theta_set_difference_base, jaccard_similarity_base and '
                 'bounds_on_ratios_in_theta_sketched_sets over the Theta hash table of C01 — polymorphic in the payload type and the combine policy '
                 '(shared with Tuple sketches), for ANY std::nth_element meeting its postcondition, ANY hash values, ALL sequences of well-formed input '
@@ -403,6 +403,12 @@ MANIFEST = dict(
                 'the one quotient |A n B|/|A u B| of two naturals (the internal union is never trimmed), exactly_equal iff equal key sets, ratio bounds '
                 'in the f == 1 branch all equal count_b/count_a. Sketches reachable through the update-sketch API (C01 histories) and all their compact '
                 'forms are well formed and the same sample. The union proof reuses the C01 refinement (each accepted entry is one table update). '
+                'PAYLOADS (what C13 inherits): erasing the payloads of the inputs and running the Theta operation gives the same theta, emptiness, keys, order flag '
+                'and seed hash as the operation at any payload type with any policy (union, intersection, A-not-B); the order flag of every result as a function '
+                'of the request, the entry count and A\'s flag; the intersection summary of a surviving key = the policy folded over the inputs\' summaries of that key '
+                'in presentation order seeded by the first input; A-not-B holds A\'s entries verbatim; the union summary = the policy folded over the non-empty '
+                'inputs\' summaries (Properties_C02_payload.v: proved once in the Tuple family and transported through the definitional bridge); operations are '
+                'functions of the operand value (rvalue = lvalue). '
                 'The model is tied to the C++ on every run: inputs are built from update sketches (items hashed by the Murmur model) and presented in 8 '
                 'physical forms (update sketch, compact ordered/unordered, wrapped v3 bytes ordered/unordered, wrapped compressed v4 bytes, deserialized '
                 'v3/v4), fed in all orders (<= 4 inputs) into unions of lg_k 5..8 vs inputs up to lg_k 10, with get_result between updates, reset, results '
